@@ -70,6 +70,7 @@ type Check struct {
 	Info      string
 	Path      string
 	Src       string
+	Replay    *ReplayInfo // recipe for replaying a counterexample on the real code, if the function qualifies
 }
 
 type Cmd struct {
